@@ -14,19 +14,21 @@ META = {
             "seeded complete walks are then forced on a real tsdb.DB with the hook sites as scheduler gates; what every querier returns, "
             "fresh probe queries at every maintenance site during completion, maintenance completion and block release are compared with the "
             "property.",
-    "note": "Bounds: one maintenance thread, 2 query threads exhaustively (3 in thorough / simulation), three committed samples (one per "
-            "location class: in-order below the truncation time, in-order above it, out-of-order), three query ranges. Select+drain is atomic "
+    "note": "Bounds: one maintenance thread, 2 query threads x 4 ranges and 1 query thread x 11 ranges exhaustively (3 threads in thorough / "
+            "simulation); five committed samples on an abstract time axis around the truncation time T (out-of-order below everything, "
+            "in-order at the old head minimum, at T-1, at T, at T+1); query ranges with mint in {below the OOO data, old head minimum, T-1, T} "
+            "and maxt in {T-1, T, T+1}. Select+drain is atomic "
             "in the model (no gate inside Select), so races between chunk listing and chunk reads are not explored; duplicates are masked by the "
             "merge querier in the code and in the model. The code's reader waits poll every 500 ms, which bounds the number of replays: quick "
-            "replays a seeded quarter of the classes. Non-negative timestamps only. Trusted: verifhook site placement, TLC, harness scheduler.",
+            "always replays the ~400 behaviours in which the single querier of each range is drained / reads the truncation time at each protocol position, plus a seeded sixteenth of the other classes. Only DB.Querier (DB.ChunkQuerier duplicates the logic but has no gate sites). Non-negative timestamps only. Trusted: verifhook site placement, TLC, harness scheduler.",
     "technique": "TLA+ model (Truncation.tla) checked by TLC over all interleavings incl. liveness; TLC-generated interleavings replayed on real "
                  "goroutines through verifhook scheduler gates; querier results, probe queries and completion compared with the property",
     "design_ref": "DESIGN.md §5 C06, Appendix A.2",
     "level": "model_checking",
 }
 
-VARIANTS_QUICK = ["no_wait", "reload_after_gc"]
-VARIANTS_ALL = ["no_wait", "reload_after_gc", "no_owait", "publish_before_reload", "no_close_wait"]
+VARIANTS_QUICK = ["collide_le", "no_wait", "reload_after_gc"]
+VARIANTS_ALL = ["collide_le", "no_wait", "reload_after_gc", "no_owait", "publish_before_reload", "no_close_wait"]
 
 
 def run(ctx):
@@ -35,8 +37,10 @@ def run(ctx):
     q = ctx.quick
     variants = VARIANTS_QUICK if q else VARIANTS_ALL
     with ThreadPoolExecutor(max_workers=8) as ex:
-        # (M)+(R) exhaustive, one behaviour per coverage class (registry in TLCGet(1): workers=1)
-        f_mc = ex.submit(ctx.tlc, "truncation", "Truncation", "MC_quick.cfg", workers=1, timeout=1500)
+        # (M)+(R) exhaustive, one behaviour per coverage class (registry in TLCGet(1): workers=1):
+        # two query threads over four ranges, and one query thread over all eleven ranges placed around the truncation time
+        f_mc = ex.submit(ctx.tlc, "truncation", "Truncation", "MC_quick.cfg", workers=1, timeout=1800)
+        f_one = ex.submit(ctx.tlc, "truncation", "Truncation", "MC_one.cfg", workers=1, timeout=1800)
         # (M) liveness: maintenance finishes once queriers close
         f_live = ex.submit(ctx.tlc, "truncation", "Truncation", "MC_live.cfg", workers=4, timeout=1500)
         # (M) the invariants must reject the named design mutations (non-vacuity)
@@ -45,23 +49,29 @@ def run(ctx):
         # (R) seeded complete walks with three query threads
         f_sim = ex.submit(ctx.tlc, "truncation", "Truncation", "SIM.cfg", simulate=(6 if q else 100), depth=90, workers=4,
                           timeout=(300 if q else 1500))
-        mc, live, sim = f_mc.result(), f_live.result(), f_sim.result()
+        mc, one, live, sim = f_mc.result(), f_one.result(), f_live.result(), f_sim.result()
         var = {v: f.result() for v, f in f_var.items()}
     for v, res in var.items():
         if res.violated not in ("ExactlyOnce", "NoUseAfterRelease", "ReadersOnLiveBlocks"):
             raise vlib.Infra("design mutation %s is not rejected by the model (got %r): the invariants are too weak" % (v, res.violated))
     ctx.account(mc)
+    ctx.account(one)
     ctx.account(live)
-    ctx.log("MC_quick: %d generated / %d distinct, %d class behaviours (%.0fs); MC_live ok (%.0fs); variants rejected: %s"
-            % (mc.generated, mc.distinct, len(mc.emitted), mc.wall, live.wall, ", ".join(variants)))
+    ctx.log("MC_quick: %d generated / %d distinct, %d class behaviours (%.0fs); MC_one: %d distinct, %d class behaviours (%.0fs); "
+            "MC_live ok (%.0fs); variants rejected: %s"
+            % (mc.generated, mc.distinct, len(mc.emitted), mc.wall, one.distinct, len(one.emitted), one.wall, live.wall, ", ".join(variants)))
     if not q:
         big = ctx.tlc("truncation", "Truncation", "MC_big.cfg", timeout=3000)
         ctx.account(big)
         ctx.log("MC_big (3 query threads): %d generated / %d distinct (%.0fs)" % (big.generated, big.distinct, big.wall))
-    classes = list(mc.emitted)
+    # MC_one: every behaviour in which a querier of some range is drained (q_iter) or reads the truncation time
+    # inside the truncation window (q_checktime) at some position of the maintenance protocol is always replayed;
+    # the code's reader waits poll every 500 ms, so the quick tier replays only a seeded sixteenth of the other classes
+    key = [b for b in one.emitted if b["steps"][-1]["a"] in ("q_iter", "q_checktime")]
+    rest = [b for b in one.emitted if b["steps"][-1]["a"] not in ("q_iter", "q_checktime")] + list(mc.emitted)
     if q:
-        # the code's reader waits poll every 500 ms: replay a seeded quarter of the classes in the quick tier
-        classes = [b for i, b in enumerate(classes) if (i + ctx.seed) % 4 == 0]
+        rest = [b for i, b in enumerate(rest) if (i + ctx.seed) % 16 == 0]
+    classes = key + rest
     behs = classes + list(sim.emitted)
     ctx.account(sim)
     ctx.log("replaying %d class behaviours + %d walks" % (len(classes), len(sim.emitted)))
@@ -75,10 +85,10 @@ def run(ctx):
         # vlib.absorb tolerates a missing done record when violation records exist (known findings always produce one)
         raise vlib.Infra("harness C06 replay did not finish (no done record):\n%s" % gr.out[-3000:])
     ctx.assumptions += [
-        "bounded model: 1 maintenance thread, 2-3 query threads, 3 samples (in-order low/high, out-of-order), ranges lo/full/hi",
+        "bounded model: 1 maintenance thread, 1-3 query threads, 5 samples (OOO; in-order at old head min, T-1, T, T+1), ranges mint x maxt around T",
         "Select+drain atomic w.r.t. maintenance steps; ChainedSeriesMerge collapses equal timestamps (duplicates cannot be observed)",
         "db.mtx modelled with writer preference; Head.minTime read once per DB.Querier segment",
-        "quick tier replays a seeded quarter of the coverage classes (500 ms reader-wait polls in the code)",
+        "quick tier: all q_iter / q_checktime classes of the one-query model + a seeded sixteenth of the other classes (500 ms reader-wait polls in the code)",
     ]
     return ctx.finish(rule="one behaviour per coverage class (step, protocol position, ranges) of the exhaustive 2-query model + seeded complete "
                            "walks of the 3-query model; scheduled prefix forced with gates, then completion with probe queries at every "
